@@ -485,6 +485,9 @@ def c10_groups(r: random.Random, n_groups: int):
             ("unknown-own-list-before", fill(tmpl, slot, f"#[serde({u})] #[serde({a})]")),
             ("unknown-own-list-after", fill(tmpl, slot, f"#[serde({a})] #[serde({u})]")),
             ("two-unknown-around", fill(tmpl, slot, f"#[serde({u}, {a}, {u2})]")),
+            # an empty list (what `#[serde($($extra)*)]` of a macro expands to without arguments) next to the real one
+            ("empty-list-before", fill(tmpl, slot, f"#[serde()] #[serde({a})]")),
+            ("empty-list-after", fill(tmpl, slot, f"#[serde({a})] #[serde()]")),
         ]
         groups.append({"kind": "unknown-insertion", "level": level, "key": key, "unknown": u, "unknown_class": uclass,
                        "members": members, "plain": fill(tmpl, slot, "")})
